@@ -44,7 +44,7 @@ type node struct {
 
 // Op is one step of a registry history.
 type Op struct {
-	Op     string   `json:"op"` // reg dereg status serf nodemaint svcmaint kv sync
+	Op     string   `json:"op"` // reg dereg status serf nodemaint svcmaint kv sync | faults: catfail healthfail kvjump hjump
 	Node   string   `json:"node,omitempty"`
 	ID     string   `json:"sid,omitempty"`
 	Name   string   `json:"name,omitempty"`
@@ -57,6 +57,7 @@ type Op struct {
 	On     bool     `json:"on,omitempty"`
 	Key    string   `json:"key,omitempty"`
 	Defs   []rt.Def `json:"defs,omitempty"`
+	N      int      `json:"n,omitempty"` // catfail: number of failing lookups
 }
 
 // CheckJ / InstJ are the canonical forms shipped to the Lean side.
@@ -92,10 +93,20 @@ type registryState struct {
 	kvPath                  string
 	wait                    time.Duration
 	closed                  bool
+
+	// scripted faults and index anomalies
+	catFail        map[string]int // service name -> number of catalog lookups that still answer 500
+	healthFail     int            // number of health queries that still answer 500
+	hJumps         int            // how often the health index went backwards
+	kvJumps        int
+	failSinceServe bool // a catalog lookup failed since the last health answer was served
+	roundClean     bool // the configuration the service watcher delivered last was built without a failed lookup
+	faultsSeen     int  // number of injected 500 answers so far
 }
 
 func newRegistry(kvPath string) *registryState {
-	r := &registryState{kv: map[string][]rt.Def{}, hIndex: 1, kvIndex: 1, kvPath: strings.Trim(kvPath, "/"), wait: 100 * time.Millisecond}
+	// indexes start high so that a backwards jump ("snapshot restore") has room below them
+	r := &registryState{kv: map[string][]rt.Def{}, catFail: map[string]int{}, hIndex: 1000, kvIndex: 1000, kvPath: strings.Trim(kvPath, "/"), wait: 100 * time.Millisecond, roundClean: true}
 	r.cond = sync.NewCond(&r.mu)
 	return r
 }
@@ -195,8 +206,57 @@ func (r *registryState) apply(o Op) {
 			r.kv[o.Key] = ds
 		}
 		r.kvIndex++
+	case "catfail":
+		if o.Name == "" {
+			return
+		}
+		n := o.N
+		if n <= 0 {
+			n = 1
+		}
+		if n > 5 {
+			n = 5
+		}
+		r.catFail[o.Name] += n
+	case "healthfail":
+		if r.healthFail < 2 {
+			r.healthFail++
+		}
+	case "kvjump":
+		// the index of the KV tree goes backwards (snapshot restore) to a region never used before, then continues
+		if r.kvJumps < 8 {
+			r.kvJumps++
+			r.kvIndex = uint64(100 * r.kvJumps)
+		}
+	case "hjump":
+		if r.hJumps < 8 {
+			r.hJumps++
+			r.hIndex = uint64(100 * r.hJumps)
+		}
 	}
 	r.cond.Broadcast()
+}
+
+// stopFaults ends the scripted catalog faults: from now on every catalog lookup is answered. (A scripted
+// health-query failure that has not happened yet still happens once; the monitor retries after its pause.)
+func (r *registryState) stopFaults() {
+	r.mu.Lock()
+	r.catFail = map[string]int{}
+	r.mu.Unlock()
+}
+
+// touchHealth is a health change without content (the index moves, the state does not).
+func (r *registryState) touchHealth() {
+	r.mu.Lock()
+	r.hIndex++
+	r.cond.Broadcast()
+	r.mu.Unlock()
+}
+
+func (r *registryState) lastRoundClean() bool {
+	r.mu.Lock()
+	defer r.mu.Unlock()
+	return r.roundClean
 }
 
 // checksLocked renders the health checks of the whole registry in the order /v1/health/state/any lists them.
@@ -309,8 +369,16 @@ func (r *registryState) ServeHTTP(w http.ResponseWriter, req *http.Request) {
 	case p == "/v1/health/state/any":
 		r.mu.Lock()
 		r.hDelivered = r.hServed
+		r.roundClean = !r.failSinceServe
 		r.cond.Broadcast()
 		r.blockLocked(req, &r.hIndex)
+		if r.healthFail > 0 {
+			r.healthFail--
+			r.faultsSeen++
+			r.mu.Unlock()
+			http.Error(w, "rpc error: No cluster leader", http.StatusInternalServerError)
+			return
+		}
 		type hc struct {
 			Node, CheckID, Name, Status, Notes, Output, ServiceID, ServiceName string
 			ServiceTags                                                       []string
@@ -321,12 +389,21 @@ func (r *registryState) ServeHTTP(w http.ResponseWriter, req *http.Request) {
 		}
 		idx := r.hIndex
 		r.hServed = idx
+		r.failSinceServe = false
 		r.mu.Unlock()
 		r.header(w, idx)
 		json.NewEncoder(w).Encode(out)
 	case strings.HasPrefix(p, "/v1/catalog/service/"):
 		name := strings.TrimPrefix(p, "/v1/catalog/service/")
 		r.mu.Lock()
+		if r.catFail[name] > 0 {
+			r.catFail[name]--
+			r.failSinceServe = true
+			r.faultsSeen++
+			r.mu.Unlock()
+			http.Error(w, "rpc error: No cluster leader", http.StatusInternalServerError)
+			return
+		}
 		type cs struct {
 			Node, Address, ServiceID, ServiceName, ServiceAddress string
 			ServicePort                                           int
